@@ -970,6 +970,8 @@ class segment_if(x12_node):
             #self.logger.error(err_str)
             ref_des = '%02i' % (child_count + 1)
             err_value = seg_data.get_value(ref_des)
+            # the first extra element has no map node: report at its position
+            errh.add_ele(_extra_element(self, child_count + 1))
             errh.ele_error('3', err_str, err_value, ref_des)
             valid = False
 
@@ -1397,6 +1399,18 @@ class element_if(x12_node):
         while not p.is_segment():
             p = p.parent
         return p
+
+
+class _extra_element(object):
+    """
+    Stand-in for the map node of a data element past the last one a segment defines.
+    Lets 'too many elements' be reported at that element's position.
+    """
+    def __init__(self, parent, seq):
+        self.parent = parent
+        self.seq = seq
+        self.data_ele = None
+        self.name = 'Extra element'
 
 
 ############################################################
